@@ -33,6 +33,12 @@ CHECKS = {
  "C15": ("property-based testing (rapid): descriptor content expected from the generating model vs thrift_reflection.GetFileDescriptor, lookup agreement across includes, Marshal/Unmarshal round trip",
          "Generated multi-file programs go through the real front end; the file descriptors built by thrift_reflection are compared field by field with content computed from the model alone (names, ids, requiredness, type expressions, defaults, enum numbers, annotations with all values, comments, base service, oneway, includes, namespaces); lookups by name and id across included files must reach the model's definition; encode/decode of a descriptor is the identity. In-process half only: descriptors embedded in generated Go packages are not yet driven.",
          "Trusted: the model-side expectation builder (written from descriptor.thrift's documented field meanings)."),
+ "C01": ("property-based testing (rapid): generated multi-file IDL programs x generated option configurations through the thriftgo binary; oracle = the compiler's own front end (go/parser + go/types over all generated packages and the pinned runtime libraries)",
+         "Generated programs and configurations are compiled by the thriftgo binary built from the working tree; whenever it exits 0 every written file must parse and the complete set of generated packages must type-check together in process (duplicate declarations, missing/unused imports, unresolved cross-package references are go/types errors).",
+         "Trusted: go/parser and go/types (the Go compiler's front end) and the source importer for the runtime libraries. Streaming, code_ref and use_option outputs cannot be type-checked offline and are not generated."),
+ "C18": ("property-based testing (rapid): generated value pairs (one-leaf mutations at drawn depth, nil/empty, optional presence, map keys, struct-keyed maps) against a reference structural equality; reflexivity/symmetry/no-panic; set-uniqueness on Write",
+         "Generated programs are compiled with gen_deep_equal and driven with generated pairs of values; x.DeepEqual(y) must equal the reference structural equality of the model values, be symmetric and reflexive and never panic; Write must fail exactly for sets with two equal elements.",
+         "Trusted: the reference equality written from the property statement; readings the statement leaves open are not asserted."),
 }
 NOT_YET = "check not built yet (work in progress; the technique applies, see DESIGN.md)"
 
